@@ -1017,8 +1017,14 @@ PROPS["C08"] = {
         Stream("bridgerace", "conc", "conc", conc_bridgerace_gen, shape=conc_shape, shrink=sexp_shrinks, compare_model=False),
         Stream("slot", "conc", "conc", conc_slot_gen, shape=conc_shape, shrink=sexp_shrinks, compare_model=False),
         Stream("stress", "conc", "conc", conc_stress_gen, shape=conc_shape, shrink=sexp_shrinks, compare_model=False),
+        Stream("joinprobe", "rt", "rt-C08", lambda tier, seed: [["gen-joinprobe"]], compare_model=False),
     ],
-    "rule": "evict: a task awaiting join!(r0..rN) whose r0 is resolved is polled by thread 0 (`is_done()`) while threads 1..N resolve "
+    "rule": "joinprobe (engine rt, no model line): a JoinHandle of a spawned task is polled from OUTSIDE its command with a waker that, "
+            "when woken, polls the handle again at once - what an executor on another thread does in response to the wake-up - and "
+            "records what it saw; the joined task ends by resolve / dropped request (eviction) / JoinHandle::abort, with and without a "
+            "sibling task awaiting a clone of the handle (6 cases, all of them on every run); every probe must read Ready (the model's "
+            "finishTask sets `finished` before waking the join handles): oracle keys join-handle-woken-before-finished, "
+            "join-handle-never-woken, join-handle-not-ready-after-task-ended. evict: a task awaiting join!(r0..rN) whose r0 is resolved is polled by thread 0 (`is_done()`) while threads 1..N resolve "
             "r1..rN; real threads are forced through an interleaving of the crux_verif schedule points (exactly one thread runs "
             "between two points); N=1: ALL interleavings of the poller's 2 steps with the waker's 5 steps (21, exhaustive), N=2: "
             "seeded sample of the 16632; the outcome (task evicted or completed) must equal the prediction of the LTS M.Conc on the same "
